@@ -156,6 +156,7 @@ def rule_span_prov(facts):
             ps = []
         for path in ps:
             pp_ = mirq.PathProv(b, path)
+            pp_.max_depth = 40
             vals.add(fmt_roots(pp_.of_local(0)))
         n += 1
         seen[key] = sorted(vals)
@@ -177,6 +178,129 @@ def rule_span_prov(facts):
     r.nontrivial = n
     r.info = {"computed": seen}
     r.require_floor(n, facts, "SPAN-PROV.bodies", "span/slice bodies")
+    return r
+
+
+def _split_range(term):
+    """'...Range{start: X, end: Y}...' -> (X, Y) with bracket matching; None if the term has no Range aggregate."""
+    i = term.find("Range{start: ")
+    if i < 0:
+        return None
+    j = i + len("Range{start: ")
+    depth, k = 0, j
+    while k < len(term):
+        c = term[k]
+        if c in "({[":
+            depth += 1
+        elif c in ")}]":
+            if depth == 0:
+                break
+            depth -= 1
+        elif c == "," and depth == 0 and term.startswith(", end: ", k):
+            break
+        k += 1
+    if not term.startswith(", end: ", k):
+        return None
+    x = term[j:k]
+    m = k + len(", end: ")
+    depth, k = 0, m
+    while k < len(term):
+        c = term[k]
+        if c in "({[":
+            depth += 1
+        elif c in ")}]":
+            if depth == 0:
+                break
+            depth -= 1
+        k += 1
+    return x, term[m:k]
+
+
+_FETCH = re.compile(r"\b(next_maybe|next_ref|next)\(")
+
+
+def _nonempty_fact(x, truth):
+    """Does `x == truth` (x: provenance root of a switch operand) establish range.start != range.end?"""
+    if x[0] == "un" and x[1] == "Not":
+        return any(_nonempty_fact(y, not truth) for y in x[2])
+    if x[0] == "bin":
+        op, a, b_ = x[1], fmt_roots(x[2]), fmt_roots(x[3])
+    elif x[0] == "call" and x[1] in ("eq", "ne", "lt", "gt", "le", "ge") and len(x[3]) == 2:
+        op, a, b_ = x[1].capitalize(), fmt_roots(x[3][0]), fmt_roots(x[3][1])
+    else:
+        return False
+    sides = (("arg2.start" in a and "arg2.end" not in a and "arg2.end" in b_ and "arg2.start" not in b_)
+             or ("arg2.end" in a and "arg2.start" not in a and "arg2.start" in b_ and "arg2.end" not in b_))
+    if not sides:
+        return False
+    # facts that exclude equality: (a == b), (a <= b), (a >= b) false; (a != b), (a < b), (a > b) true
+    return (op in ("Eq", "Le", "Ge") and not truth) or (op in ("Ne", "Lt", "Gt") and truth)
+
+
+def rule_span_empty(facts):
+    """Input::span of inputs whose tokens carry their own spans: the span of an EMPTY range must not be assembled from
+    two different tokens (start of the token after the position, recorded end of the token before it)."""
+    r = RuleResult("SPAN-EMPTY")
+    n = two = 0
+    for b in facts.bodies:
+        if b["kind"] == "Closure" or b.get("impl_trait") != "input::Input" or b["name"] != "span":
+            continue
+        st = b.get("impl_self_adt") or norm_self(b.get("impl_self"))
+        key = "%s::span" % st
+        try:
+            ps = mirq.paths(b)
+        except RuntimeError:
+            r.errors.append("path budget exceeded in %s" % key)
+            continue
+        n += 1
+        bad = None
+        for path in ps:
+            pp_ = mirq.PathProv(b, path)
+            pp_.max_depth = 40
+            for term in sorted(fmt_roots({x}) for x in pp_.of_local(0)):
+                se = _split_range(term)
+                if se is None:
+                    continue
+                start, end = se
+                # start read off a token fetched at range.start, end read off what range.end recorded: two different tokens
+                if not (_FETCH.search(start) and "arg2.start" in start and "arg2.end" not in start
+                        and "arg2.end" in end and "arg2.start" not in end):
+                    continue
+                two += 1
+                guarded = False
+                for bb, idx in path:
+                    t = b["blocks"][bb]["term"]
+                    if t["k"] != "switch" or idx in (None, "loop"):
+                        continue
+                    op = mirq.operand_place(t["op"])
+                    if op is None:
+                        continue
+                    choice = mirq.switch_choice(b, bb, idx)
+                    truth = False if choice == 0 else True
+                    for x in pp_.of_place(op):
+                        if _nonempty_fact(x, truth):
+                            guarded = True
+                    if guarded:
+                        break
+                r.ob(guarded)
+                if len(r.samples) < 4:
+                    r.samples.append({key: {"start": start, "end": end, "guarded by a start/end comparison": guarded}})
+                if not guarded and bad is None:
+                    bad = (start, end)
+        if bad is not None:
+            r.violations.append(V("SPAN-EMPTY", key, "empty range spans two tokens",
+                                  "%s builds start <- %s (the token AFTER range.start) and end <- %s (recorded from the token BEFORE "
+                                  "range.end, or its fallback) on a path that never compares range.start with range.end: for an empty "
+                                  "range (a match that consumed nothing) these are the following and the preceding token, so the span is "
+                                  "inverted whenever token spans have gaps, and covers start..fallback when nothing was consumed yet"
+                                  % (key, bad[0], bad[1]), *loc(b)))
+    r.explanation = ("every Input::span body (%d): a path whose result takes its start from a token fetched at range.start and its end from "
+                     "the record kept in range.end (%d such path values) lies under a path fact that excludes range.start == range.end (`start == end` false, "
+                     "`!=`/`<`/`>` true), so an empty range cannot be described by two different tokens" % (n, two))
+    r.nontrivial = two
+    r.info = {"span bodies": n, "two-token path values": two}
+    r.require_floor(n, facts, "SPAN-EMPTY.bodies", "Input::span bodies")
+    r.require_floor(two, facts, "SPAN-EMPTY.two_token", "two-token span path values")
     return r
 
 
